@@ -159,9 +159,12 @@ EdgeSeqNode(S, par, u, i) == LET RECURSIVE G(_)
       G(j) == IF j < 0 THEN <<>> ELSE (IF Out(u)[j+1] \in S /\ (u + j) % 2 # par THEN <<<<u, j>>>> ELSE <<>>) \o G(j-1)
    IN G(i)
 EdgeSeq(S, par, u) == IF u < 0 THEN <<>> ELSE (IF u \in S THEN EdgeSeqNode(S, par, u, Len(Out(u)) - 1) ELSE <<>>) \o EdgeSeq(S, par, u-1)
+\* every node subset, once together with half of the edges and once with no explicit edge removal at all
+\* (then a kept node loses out-edges only through removed targets)
 RemoveRequests ==
   {[nodes |-> S, edges |-> ParityEdges(Cardinality(S) % 2),
     res |-> Remove(S, ParityEdges(Cardinality(S) % 2))] : S \in SUBSET Nodes}
+  \cup {[nodes |-> S, edges |-> {}, res |-> Remove(S, {})] : S \in SUBSET Nodes}
 KeepRequests ==
   {[nodes |-> Desc(S, n-1), edges |-> EdgeSeq(S, Cardinality(S) % 2, n-1),
     res |-> Keep(Desc(S, n-1), EdgeSeq(S, Cardinality(S) % 2, n-1))] : S \in (SUBSET Nodes) \ {{}}}
